@@ -233,11 +233,17 @@ func checkState(c stateCase) (h.Info, error) {
 	if oL != aL || oH != aH {
 		return info, fmt.Errorf("transform gives different results in guarded and ordinary memory")
 	}
+	// lanes whose input contains the unused pair (0,0) are outside Curl-P: for them only the agreement
+	// of the two routines and lane independence are asserted
+	var dirty uint
+	for i := range l {
+		dirty |= ^(l[i] | hh[i])
+	}
 	for i := range aL {
 		if aL[i] != gL[i] || aH[i] != gH[i] {
 			return info, fmt.Errorf("word %d: build-selected transform (%s) = (%016x,%016x), portable transformGeneric = (%016x,%016x)", i, buildVariant, aL[i], aH[i], gL[i], gH[i])
 		}
-		if z := ^(aL[i] | aH[i]); z != 0 {
+		if z := ^(aL[i] | aH[i]) &^ dirty; z != 0 {
 			return info, fmt.Errorf("output word %d contains the undefined pair (0,0) in lanes %064b", i, z)
 		}
 	}
